@@ -62,6 +62,8 @@ func genSpec(r *rand.Rand, name string) adapt.TableSpec {
 			s.Indexes = append(s.Indexes, adapt.IndexSpec{Name: "gsi4", Hash: "g", Range: "h", RangeT: s.HashT})
 		}
 	}
+	// the order in which a request lists its indexes carries no meaning
+	r.Shuffle(len(s.Indexes), func(i, j int) { s.Indexes[i], s.Indexes[j] = s.Indexes[j], s.Indexes[i] })
 	return s
 }
 
